@@ -252,6 +252,16 @@ def gen_append(rng, tier):
         g.w(rng.choice(["tiny", "mid", 1]), rng.choice([1, 5, 130]))
         g.check(True)
         cases.append(Case("mixed-%d" % i, g.ops, True, "random"))
+    # the file grows: it is pre-allocated in steps of 1 MiB and extended by max(record, 1 MiB) when a record does not fit;
+    # records that cross the first step, and records larger than several steps followed by small ones (the bookkeeping of
+    # the file length decides whether the next `set_len` cuts into what was just written)
+    for name, sizes in (("cross-1mib", [600000, 500000, 9, 9]), ("big-3_5mib", [9, 3500000, 9, 9, 200]),
+                        ("big-6mib", [300000, 6000000, 9, 9])) + ((("big-2x", [2200000, 9, 2300000, 9, 9]),) if big else ()):
+        ops = ["open 1 0 0"]
+        for j, ln in enumerate(sizes):
+            ops.append("w %d 1 %d %d" % (j + 1, ln, 40 + j))
+        ops += ["read 1 100", "last", "state", "reopen", "read 1 100", "last", "state"]
+        cases.append(Case("grow-" + name, ops, True, "boundary"))
     return cases
 
 
@@ -344,6 +354,10 @@ def gen_store(rng, tier, mode):
             ops += ["a %d 2 5 %d" % (j, 1000 + j), "last"]
         ops += ["reopen", "last", "get 0 100000", "cat"]
         cases.append(Case("rollover-single-%d_%d" % geom, ops, True, "boundary"))
+    # directed: an entry of several MiB (a large configuration) followed by small ones, read back before and after a reopen
+    for name, ln in (("3_5mib", 3500000), ("6mib", 6000000)):
+        cases.append(Case("store-big-" + name, ["open", "a 1 1 9 1", "a 2 1 %d 2" % ln, "a 3 1 9 3", "b 4 2 3 9 4", "last", "get 0 100",
+                                                "reopen", "last", "get 0 100"], True, "boundary"))
     big = tier == "thorough"
     geoms = [(4, 64), (4, 64), (3, 100), (8, 128), (5, 64), None]
     for i in range((500 if big else 70)):
